@@ -220,6 +220,95 @@ pub fn c11(run: &mut Run) -> Stats {
             st
         })
         .reduce(Stats::default, Stats::merge);
+    // ---- 2c. two properties in one class: union (u, v), intersection and subtraction (v) equal the set algebra
+    // of the oracle sets, over every scalar value (large interval lists merged, intersected, subtracted)
+    let big: Vec<&str> = vec!["L", "Lu", "Ll", "Alphabetic", "Script=Latin", "sc=Greek", "scx=Latin", "Nd", "N", "P", "M", "Lowercase", "ASCII", "Emoji", "Cased", "ID_Continue"];
+    let big: Vec<&str> = big.into_iter().filter(|e| t.names.contains_key(*e)).collect();
+    let scalar_set = |e: &str| -> Vec<(u32, u32)> {
+        let mut exp: Vec<(u32, u32)> = Vec::new();
+        for &(a, b) in &t.sets[t.names[e]] {
+            if a <= 0xD7FF && b >= 0xE000 {
+                exp.push((a, 0xD7FF));
+                exp.push((0xE000, b));
+            } else if b < 0xD800 || a > 0xDFFF {
+                exp.push((a, b));
+            } else {
+                if a < 0xD800 {
+                    exp.push((a, 0xD7FF));
+                }
+                if b > 0xDFFF {
+                    exp.push((0xE000, b));
+                }
+            }
+        }
+        exp
+    };
+    let member = |v: &[(u32, u32)], c: u32| -> bool { v.binary_search_by(|&(a, b)| if c < a { std::cmp::Ordering::Greater } else if c > b { std::cmp::Ordering::Less } else { std::cmp::Ordering::Equal }).is_ok() };
+    let pairs: Vec<(&str, &str)> = big.iter().flat_map(|a| big.iter().map(move |b| (*a, *b))).filter(|(a, b)| a != b).collect();
+    let pairs: Vec<(&str, &str)> = if thorough { pairs } else { pairs.into_iter().step_by(3).collect() };
+    let st2c = pairs
+        .par_iter()
+        .fold(Stats::default, |mut st, (a, b)| {
+            let (sa, sb) = (scalar_set(a), scalar_set(b));
+            for (tpl, fs, op) in [("[\\p{A}\\p{B}]+", "u", 0), ("[\\p{A}\\p{B}]+", "v", 0), ("[\\p{A}&&\\p{B}]+", "v", 1), ("[\\p{A}--\\p{B}]+", "v", 2), ("[^\\p{A}\\p{B}]+", "u", 3)] {
+                let pat_s = tpl.replace('A', "\u{1}").replace('B', b).replace("\u{1}", a);
+                let CompileOutcome::Ok(re) = subject::compile(&cps(&pat_s), Flags::parse(fs), false) else {
+                    st.violation(&known, "C11", "a class of two properties does not compile", a.len() + b.len(), case(&pat_s, fs, false, "does not compile", J::s("Ok"), J::Null));
+                    continue;
+                };
+                st.add("evaluations", 1);
+                st.add("validated", 1);
+                st.add("nontrivial", 1);
+                let got = subject::guarded(u64::MAX, || {
+                    let mut v: Vec<(u32, u32)> = Vec::new();
+                    for m in re.find_iter(text) {
+                        let s = &text[m.range()];
+                        let first = s.chars().next().unwrap() as u32;
+                        let last = s.chars().next_back().unwrap() as u32;
+                        if first <= 0xD7FF && last >= 0xE000 {
+                            v.push((first, 0xD7FF));
+                            v.push((0xE000, last));
+                        } else {
+                            v.push((first, last));
+                        }
+                    }
+                    v
+                });
+                let Outcome::Ok(g) = got else {
+                    st.violation(&known, "C11", "panic matching a class of two properties", a.len() + b.len(), case(&pat_s, fs, false, "panic", J::Null, J::s(&format!("{:?}", got))));
+                    continue;
+                };
+                // compare on every interval edge of both operands and of the result (and their neighbours)
+                let mut probes: Vec<u32> = Vec::new();
+                for &(x, y) in sa.iter().chain(sb.iter()).chain(g.iter()) {
+                    for c in [x.saturating_sub(1), x, x + 1, y.saturating_sub(1), y, (y + 1).min(0x10FFFF)] {
+                        if !(0xD800..=0xDFFF).contains(&c) {
+                            probes.push(c);
+                        }
+                    }
+                }
+                probes.sort_unstable();
+                probes.dedup();
+                let mut bad: Vec<u32> = Vec::new();
+                for c in probes {
+                    let (ia, ib) = (member(&sa, c), member(&sb, c));
+                    let exp = match op {
+                        0 => ia || ib,
+                        1 => ia && ib,
+                        2 => ia && !ib,
+                        _ => !(ia || ib),
+                    };
+                    if member(&g, c) != exp {
+                        bad.push(c);
+                    }
+                }
+                if !bad.is_empty() {
+                    st.violation(&known, "C11", &format!("set algebra of two properties differs: {}", tpl), a.len() + b.len(), case(&pat_s, fs, false, "membership differs from the algebra of the two Unicode 17 sets (first differing code points shown)", J::s("(oracle)"), J::Arr(bad.iter().take(12).map(|c| J::s(&format!("U+{:04X}", c))).collect())).set("differing_probes", J::u(bad.len() as u64)));
+                }
+            }
+            st
+        })
+        .reduce(Stats::default, Stats::merge);
     // ---- 3. properties of strings over the judged universe
     let mut st3 = Stats::default();
     let mut names: Vec<&String> = t.strings.keys().collect();
@@ -286,7 +375,7 @@ pub fn c11(run: &mut Run) -> Stats {
         st3 = st3.merge(s);
     }
     run.rule = format!(
-        "acceptance: {} candidate expressions (every expression the oracle lists as accepted or rejected: names, values and aliases of all Unicode properties known to Perl UCD 14 and ES, scripts of Unicode 15-17, case/underscore/space variants, wrong property prefixes, plus {} built from string literals found in the subject's own name tables) x {{u,v}} x {{\\p,\\P}}; membership: every accepted expression x {{u,v}} x {{\\p,\\P}} over all 1,112,064 scalar values (one scan of the all-scalars haystack each, with the program's start predicate and again without it); every accepted expression used with both polarities in one pattern (5 templates x 6 member / non-member haystack shapes); strings: {} judged strings x 7 properties of strings under v as /^\\p{{..}}$/, and every member string against the unanchored forms /\\p{{..}}/, /[\\p{{..}}]/ and /(?<=^\\p{{..}})$/ (whole-string first match, forwards and backwards); non-trivial = expression admitted by ES / string is a member",
+        "acceptance: {} candidate expressions (every expression the oracle lists as accepted or rejected: names, values and aliases of all Unicode properties known to Perl UCD 14 and ES, scripts of Unicode 15-17, case/underscore/space variants, wrong property prefixes, plus {} built from string literals found in the subject's own name tables) x {{u,v}} x {{\\p,\\P}}; membership: every accepted expression x {{u,v}} x {{\\p,\\P}} over all 1,112,064 scalar values (one scan of the all-scalars haystack each, with the program's start predicate and again without it); every accepted expression used with both polarities in one pattern (5 templates x 6 member / non-member haystack shapes); pairs of 16 large properties in one class ([\\p{{A}}\\p{{B}}] under u and v, && and -- under v, negated union): membership on every interval edge equals the algebra of the two oracle sets; strings: {} judged strings x 7 properties of strings under v as /^\\p{{..}}$/, and every member string against the unanchored forms /\\p{{..}}/, /[\\p{{..}}]/ and /(?<=^\\p{{..}})$/ (whole-string first match, forwards and backwards); non-trivial = expression admitted by ES / string is a member",
         cands.len(),
         from_source,
         t.universe.len()
@@ -298,7 +387,7 @@ pub fn c11(run: &mut Run) -> Stats {
     ];
     run.extra.push(("accepted_expressions".into(), J::u(t.names.len() as u64)));
     run.extra.push(("distinct_sets".into(), J::u(t.sets.len() as u64)));
-    st1.merge(st2).merge(st2b).merge(st3)
+    st1.merge(st2).merge(st2b).merge(st2c).merge(st3)
 }
 
 fn seq_str(u: &[u32]) -> String {
